@@ -716,7 +716,7 @@ func judgeWire(o reqOutcome, v mVal) (string, string) {
 
 // judgeSessions: every stage must see the requesting session. Middlewares: through the documented accessor
 // ClientSessionFromContext. Handlers: through either accessor. A foreign session is a violation with any accessor.
-func judgeSessions(r *vh.Run, sp caseSpec, label string, o reqOutcome, sessID string, got []obsStage, wit map[string]interface{}) {
+func judgeSessions(r *vh.Run, sp caseSpec, label string, o reqOutcome, sessID string, got []obsStage, wit map[string]interface{}) bool {
 	reported := map[string]bool{}
 	for _, s := range got {
 		where := "middleware"
@@ -760,6 +760,7 @@ func judgeSessions(r *vh.Run, sp caseSpec, label string, o reqOutcome, sessID st
 		reported[sig] = true
 		r.Violation(sig, fmt.Sprintf("%s: request %s of session %s: stage %s saw ClientSessionFromContext=%s GetSessionFromContext=%s", label, o.ID, sessID, s.Stage, s.CS, s.GS), wit)
 	}
+	return len(reported) > 0
 }
 
 var watchdogFired atomic.Int64
@@ -840,21 +841,27 @@ func main() {
 	reqsPerCase, sessPerCase = r.Pick(8, 16), r.Pick(2, 4)
 	acquireBaselines(r)
 	cases := buildCases(r)
-	sampleStride = len(cases)/9 + 1
+	shared := buildSharedCases(r)
+	sampleStride = len(cases)/4 + 1
 	workers := 8
-	ch := make(chan caseSpec)
+	ch := make(chan func())
 	var wg sync.WaitGroup
 	for w := 0; w < workers; w++ {
 		wg.Add(1)
 		go func() {
 			defer wg.Done()
-			for sp := range ch {
-				runCase(r, sp)
+			for job := range ch {
+				job()
 			}
 		}()
 	}
+	for _, sp := range shared {
+		sp := sp
+		ch <- func() { runShared(r, sp) }
+	}
 	for _, sp := range cases {
-		ch <- sp
+		sp := sp
+		ch <- func() { runCase(r, sp) }
 	}
 	close(ch)
 	wg.Wait()
@@ -892,6 +899,17 @@ func main() {
 		r.Require(r.Counter(fmt.Sprintf("core_reached_through_modifier_%c", b)) > 0, "the core was never reached through a modify-request middleware of form %c", b)
 	}
 
+	// scenario shared: nothing observed, nothing claimed
+	r.Require(r.Counter("shared_requests_matched_final") > 0, "scenario shared: no request to a server built from shared values matched the interpreter")
+	r.Require(r.Counter("shared_requests_matched_early") > 0, "scenario shared: no server was asked right after its own construction")
+	r.Require(r.Counter("shared_requests_matched_on_a_server_constructed_before_another") > 0, "scenario shared: no server was seen keeping its chain after a later server had been constructed from the same values")
+	for _, k := range kinds {
+		r.Require(r.Counter(fmt.Sprintf("shared_cases_held_spare_capacity_prefix_on_2+_servers/%s", k)) > 0,
+			"scenario shared: on %s no case with two servers configured as spread-of-a-slice-with-spare-capacity + own middleware was judged", k)
+		r.Require(r.Counter(fmt.Sprintf("shared_cases_held_sequential/%s", k)) > 0, "scenario shared: no sequentially constructed %s servers judged", k)
+		r.Require(r.Counter(fmt.Sprintf("shared_cases_held_concurrent/%s", k)) > 0, "scenario shared: no concurrently constructed %s servers judged", k)
+	}
+
 	r.Finish("chains over {pass P, modify-request Q, modify-result R, short-circuit result S, short-circuit JSON-RPC error E, fail F}: thorough = all 1555 of length 0..4, quick = all 43 of length <= 2 plus 150 seeded of length 3..4; "+
 		"x server kinds {S-json, S-sse, L-sse} x methods {tools/call with every option form; tools/list, ping, prompts/get with rotating forms} x option forms {single WithMiddleware(a,b,..), one option per middleware, split 2+rest; none/empty for length 0} (WithSSEMiddleware on the legacy server); "+
 		"every chain also with 2 methods off the dispatch table (logging/setLevel, x-vendor/do, \" \", Tools/Call, tools/call/, rpc.discover, tools) and 2 unmodelled built-in ones (completion/complete, resources/subscribe|unsubscribe|list|read|templates/list, prompts/list), rotating; "+
@@ -906,5 +924,7 @@ func main() {
 			"middlewares let requests that are not the check's own (initialize of the handshake) pass untouched",
 			"GetSessionFromContext is recorded, only a foreign session through it is judged; the documented accessor for middlewares is ClientSessionFromContext",
 			"interleavings are sampled (gate release), not enumerated",
+			"scenario shared: the caller changes a slice only after the construction of every server that was given an option made from it before (what a server constructed from an option value whose slice changed between making the option and constructing the server is configured with is left open by the statement)",
+			"scenario shared: every middleware value appears at most once in one server's chain",
 		})
 }
